@@ -14,6 +14,7 @@ def check(run):
         crules.hash_rules(run, r[0], r[1], r[2], r[3], r[4], ast)
         crules.merge_rules(run, None, r[4], ast)          # every id of a class is kept (compared raw, not through the projection)
         crules.publish_range_rules(run, r[2], ast)
+        crules.hash_sizing_rules(run, r[0], ast)
     # "with the checked hash, every id that was not registered is reported": the checked hash is only worth something on the routes
     # that pass it - every route from an object to a v-table pointer does, under the checked policies (the C15-call rule)
     from .. import callpath, witness
